@@ -1,6 +1,6 @@
 (** C06 — Indicator signals fire exactly under their documented conditions. *)
 From Yata Require Import Base.Prelude Base.Num Base.NumR Core.Window Core.Candle Core.Action
-  Spec.Hist Methods.Basic Methods.Select Indicators.Common Indicators.Set1 Indicators.Set2 Indicators.Set3 Indicators.Set4 Indicators.Set5 Proofs.Detectors Proofs.SignalProofs Proofs.SignalProofs2 Proofs.SignalProofs3.
+  Spec.Hist Spec.MethodDefs Spec.IndicatorDefs Methods.Basic Methods.Select Indicators.Common Indicators.Set1 Indicators.Set2 Indicators.Set3 Indicators.Set4 Indicators.Set5 Proofs.Detectors Proofs.SignalProofs Proofs.SignalProofs2 Proofs.SignalProofs3 Proofs.SignalProofs4 Proofs.SignalProofs5 Proofs.SignalProofs6 Proofs.SignalProofs7 Proofs.Selection Proofs.MAProofs.
 Open Scope Z_scope.
 
 Section C06.
@@ -139,6 +139,43 @@ Theorem C06_commodity_channel_index period (zone : R) src (c0 : candle (N := Num
   let last := match rev (run ccii_next s0 cs) with [] => f0 | q :: _ => vals q 0 end in
   sigs r = [a_from_i8 (cci_rule zone (vals r 0) last)].
 Proof. exact (cci_signal_correct period zone src c0 cs c s0). Qed.
+(** IchimokuCloud [tenkan; kijun; span a; span b]: #1 = crossing of (tenkan, kijun), #2 = crossing of (source, kijun) - a detector
+    fed a pair that depends on the candle, [det_output2] - each kept only as a full signal in the direction of the price's
+    position relative to the cloud *)
+Theorem C06_ichimoku_cloud (s0 : ichi_st (N := NumR)) cs k : ic_c1 s0 = (f0, f0) -> ic_c2 s0 = (f0, f0) ->
+  let src := ic_source s0 in let r := snd (ichi_next (steps ichi_next s0 cs) k) in
+  let x1 := cross_def (hget (f0, f0) (rev (cpairs ichi_next ichi_p1 s0 (cs ++ [k])))) in
+  let x2 := cross_def (hget (f0, f0) (rev (cpairs ichi_next (ichi_p2 src) s0 (cs ++ [k])))) in
+  sigs r = [ichi_sig (ichi_above src k r) (ichi_below src k r) x1; ichi_sig (ichi_above src k r) (ichi_below src k r) x2].
+Proof. exact (ichimoku_signals_correct s0 cs k). Qed.
+(** HullMovingAverage: a PIVOT signal end to end - for every stream that begins with the candle the instance was created from,
+    the signal is the definitional reversal (C14: the newest extreme of the last left+right+1 values sits exactly `right` steps
+    back) of the series of Hull averages the indicator has returned *)
+Theorem C06_hull_moving_average_pivot period lft right src (c0 : candle (N := NumR)) cs c :
+  2 < period <= pmax - 1 -> 1 <= lft -> 1 <= right -> lft + right <= pmax - 2 ->
+  exists s0, hmai_init period lft right src c0 = Ok s0 /\
+    sigs (snd (hmai_next (steps hmai_next s0 (c0 :: cs)) c)) =
+    let h := hget (c_source c0 src) (series (hull_of period src c0) (rev ((c0 :: cs) ++ [c]))) in
+    let L := Z.to_nat (lft + right + 1) in let r := Z.to_nat right in
+    [a_sub (if Nat.eqb (argbest flt h L) r then a_buy_all else ANone) (if Nat.eqb (argbest fgt h L) r then a_buy_all else ANone)].
+Proof. exact (hull_signal_correct period lft right src c0 cs c). Qed.
+(** the same for Trix (#1: reversal with left = right = 1 of the Trix line) and CoppockCurve (#2: reversal (s2_left, s2_right) of
+    the Coppock line); [pivot_output] is the generic statement *)
+Theorem C06_trix_pivot p1 (signal : ma_cfg) src (c0 : candle (N := NumR)) cs c :
+  2 < p1 <= pmax - 1 -> 1 < ma_period signal -> ma_len_ok signal -> 4 <= pmax ->
+  exists s0, trix_init p1 signal src c0 = Ok s0 /\
+    nth 0 (sigs (snd (trix_next (steps trix_next s0 (c0 :: cs)) c))) ANone =
+    let h := hget f0 (series (trix_of p1 signal src c0) (rev ((c0 :: cs) ++ [c]))) in
+    a_sub (if Nat.eqb (argbest flt h 3) 1 then a_buy_all else ANone) (if Nat.eqb (argbest fgt h 3) 1 then a_buy_all else ANone).
+Proof. exact (trix_pivot_signal_correct p1 signal src c0 cs c). Qed.
+Theorem C06_coppock_pivot (cfg : cop_cfg) (c0 : candle (N := NumR)) cs c : cop_validate cfg = true -> cc_left cfg + cc_right cfg <= pmax - 2 ->
+  ma_len_ok (cc_ma1 cfg) -> ma_len_ok (cc_s3 cfg) ->
+  exists s0, cop_init (N := NumR) cfg c0 = Ok s0 /\
+    nth 1 (sigs (snd (cop_next (steps cop_next s0 (c0 :: cs)) c))) ANone =
+    let h := hget f0 (series (cop_of cfg c0) (rev ((c0 :: cs) ++ [c]))) in
+    let L := Z.to_nat (cc_left cfg + cc_right cfg + 1) in let r := Z.to_nat (cc_right cfg) in
+    a_sub (if Nat.eqb (argbest flt h L) r then a_buy_all else ANone) (if Nat.eqb (argbest fgt h L) r then a_buy_all else ANone).
+Proof. exact (coppock_pivot_signal_correct cfg c0 cs c). Qed.
 End C06.
 
 (** signals that are a function of the values returned at the same step: the documented rule holds in EVERY state
@@ -172,6 +209,16 @@ Theorem C06_parabolic_sar (s : psar_st) (k : candle) :
   sigs (snd (psar_next s k)) = [a_from_i8 (b2z (negb (ps_prev_trend s =? ps_trend s')) * ps_trend s')] /\
   ps_prev_trend s' = ps_trend s' /\ vals (snd (psar_next s k)) 1 = fofZ (ps_trend s').
 Proof. exact (psar_signal s k). Qed.
+Theorem C06_average_directional_index (s : adx_st) (k : candle) :
+  let r := snd (adx_next s k) in
+  sigs r = [a_from_i8 (b2z (fgt (vals r 0) (ac_zone (ax_cfg s))) * (b2z (fgt (vals r 1) (vals r 2)) - b2z (flt (vals r 1) (vals r 2))));
+            a_from_f (fsub (vals r 1) (vals r 2))].
+Proof. exact (adx_signals s k). Qed.
+Theorem C06_chande_kroll_stop_position (s : cks_st) (k : candle) :
+  let r := snd (cks_next s k) in
+  let mid := fmul (fadd (vals r 2) (vals r 0)) (flit 1 2) in let size := fsub mid (vals r 0) in
+  nth 0 (sigs r) ANone = a_from_f (if feq size f0 then f0 else fdiv (fsub (vals r 1) mid) size).
+Proof. exact (chande_kroll_signal1 s k). Qed.
 End C06b.
 
 (** Known finding KF-C06-keltner-polarity: the documentation of KeltnerChannel says "when the source goes
